@@ -155,6 +155,41 @@ def template(tid, tmp=None):
         f.variables['O3'][...] = a + 100
         f.variables['NO2'][...] = a + 200
         return f
+    if tid == 'I8':   # built from arrays with the time flags given explicitly
+        nt, nl, nr, nc = 3, 2, 2, 3
+        a = np.arange(nt * nl * nr * nc, dtype='f').reshape(nt, nl, nr, nc)
+        tf = np.zeros((nt, 2, 2), dtype='i')
+        tf[:, :, 0] = np.array([2011365, 2012001, 2012001])[:, None]
+        tf[:, :, 1] = np.array([223000, 0, 13000])[:, None]
+        return ioapi_base.from_arrays(
+            TFLAG=tf, O3=a + 100, NO2=a + 200,
+            fileattrs=dict(SDATE=2011365, STIME=223000, TSTEP=13000,
+                           XORIG=-108000., YORIG=-60000., XCELL=12000.,
+                           YCELL=4000., VGLVLS=np.array([1, .9, .65], 'f'),
+                           VGTOP=5000., GDNAM='VERIF', FTYPE=1))
+    if tid == 'I9':   # built by hand: attributes set and variables created,
+        # the time flags not (yet) materialised
+        nt, nl, nr, nc = 4, 2, 2, 3
+        f = ioapi_base()
+        for dk, dl in (('TSTEP', nt), ('DATE-TIME', 2), ('LAY', nl),
+                       ('VAR', 2), ('ROW', nr), ('COL', nc)):
+            f.createDimension(dk, dl)
+        f.dimensions['TSTEP'].setunlimited(True)
+        for pk, pv in dict(FTYPE=1, SDATE=2019365, STIME=220000, TSTEP=13000,
+                           NTHIK=1, NCOLS=nc, NROWS=nr, NLAYS=nl, NVARS=2,
+                           GDTYP=2, P_ALP=33., P_BET=45., P_GAM=-97.,
+                           XCENT=-97., YCENT=40., XORIG=-108000.,
+                           YORIG=-60000., XCELL=12000., YCELL=4000., VGTYP=7,
+                           VGTOP=5000., VGLVLS=np.array([1, .9, .65], 'f'),
+                           GDNAM='VERIF'.ljust(16),
+                           UPNAM='VERIF'.ljust(16)).items():
+            setattr(f, pk, pv)
+        a = np.arange(nt * nl * nr * nc, dtype='f').reshape(nt, nl, nr, nc)
+        for i, vk in enumerate(('O3', 'NO2')):
+            v = f.createVariable(vk, 'f', ('TSTEP', 'LAY', 'ROW', 'COL'),
+                                 units='ppbV')
+            v[:] = a + 100 * (i + 1)
+        return f
     if tid == 'I7':   # read from disk: irregular time axis (gaps over the
         # year end), and an unlisted auxiliary profile PRES(TSTEP, LAY)
         from PseudoNetCDF.cmaqfiles import ioapi
@@ -173,7 +208,7 @@ def template(tid, tmp=None):
     raise ValueError(tid)
 
 
-TEMPLATES = ['I1', 'I2', 'I3', 'I4', 'I5', 'I6', 'I7']
+TEMPLATES = ['I1', 'I2', 'I3', 'I4', 'I5', 'I6', 'I7', 'I8', 'I9']
 
 
 def call(objs, st, tmp):
@@ -183,6 +218,9 @@ def call(objs, st, tmp):
         # an explicit in-place edit of the receiver (its VAR-LIST goes stale)
         del f.variables[a['name']]
         return None
+    if act == 'copy' and a.get('nodata'):
+        # a template of the file: structure and metadata without the values
+        return f.copy(data=False)
     if act == 'interpsigma':
         if a.get('vgtop'):      # relative to another model top
             return f.interpSigma(np.array(a['vglvls'], dtype='f') / 1000.,
@@ -254,6 +292,9 @@ def _gen_step(rnd, sh, src, shadows):
                 'args': {'vglvls': edges,
                          'kind': rnd.choice(['linear', 'conserve']),
                          'vgtop': rnd.choice([0, 0, 10000, 2500])}}
+    if act == 'copy' and rnd.random() < 0.5:
+        return {'act': 'copy', 'src': src, 'others': [],
+                'args': {'nodata': True}}
     st = cd.gen_step(rnd, sh, src, shadows, focus=act, strict=True)
     # the generic string forms / module-level helpers know nothing of IOAPI
     # metadata (C10/C11 are about the ioapi_base wrappers)
@@ -317,6 +358,30 @@ def tstep_stacks(rnd, tier):
     return progs
 
 
+def tstep_windows():
+    """Time windows with a non-zero first index, of the file itself and of its
+    value-less template copy(data=False) (C11, C10, C02, C01)."""
+    def sl(a, b, c):
+        return {'k': 'slice', 'h': [a is not None, b is not None,
+                                    c is not None],
+                'v': [x if x is not None else 0 for x in (a, b, c)]}
+    nts = {'I1': 3, 'I4': 4, 'I6': 3, 'I7': 5, 'I5': 3, 'I8': 3, 'I9': 4}
+    progs = []
+    for t in sorted(nts):
+        n = nts[t]
+        for lo, hi in ((1, n), (1, 2), (n - 1, n)):
+            w = {'act': 'slice', 'src': 1, 'others': [], 'args': {
+                'sels': [{'d': 'TSTEP', 's': sl(lo, hi, None)}],
+                'newdim': 'POINTS'}}
+            w3 = dict(w, src=3)
+            progs.append({'templates': [t, t], 'steps': [
+                w, {'act': 'copy', 'src': 1, 'others': [],
+                    'args': {'nodata': True}}, w3,
+                {'act': 'copy', 'src': 3, 'others': [], 'args': {}}][
+                    :1 if (lo, hi) != (1, n) else 4]})
+    return progs
+
+
 def tstep_selections(rnd, tier):
     """C02 on IOAPI files: selections of the time axis that are no increasing
     arithmetic progression (uneven, repeated, unordered, negative indices,
@@ -325,8 +390,8 @@ def tstep_selections(rnd, tier):
         return {'k': 'slice', 'h': [a is not None, b is not None,
                                     c is not None],
                 'v': [x if x is not None else 0 for x in (a, b, c)]}
-    nts = {'I1': 3, 'I4': 4, 'I6': 3, 'I7': 5, 'I5': 3}
-    progs = []
+    nts = {'I1': 3, 'I4': 4, 'I6': 3, 'I7': 5, 'I5': 3, 'I8': 3, 'I9': 4}
+    progs = tstep_windows()
     for t in sorted(nts):
         n = nts[t]
         sels = [{'k': 'list', 'v': [0, n - 1]}, {'k': 'list', 'v': [1, 1, 0]},
@@ -503,6 +568,7 @@ def run_ioapi(out, tier, prop):
         shutil.rmtree(tmp, ignore_errors=True)
     if prop == 'C10':
         progs += tstep_stacks(rnd, tier)
+    progs += tstep_windows()
     mcp = mc_programs(out, tier, prop)
     out.cov['programs_emitted_by_tlc'] = len(mcp)
     if tier == 'quick' and len(mcp) > 700:
@@ -541,3 +607,34 @@ def run_ioapi(out, tier, prop):
                                env=env, label=prop, timeout=1500)
     settle(out, traces, verdicts, None)
     return traces
+
+
+def run_ioapi_wellformed(out, tier):
+    """C01 on IOAPI files: constructors (arrays with and without explicit time
+    flags, GRIDDESC text, by hand), readers and every operation give a
+    well-formed file whose time-step dimension is unlimited."""
+    rnd = random.Random(seed() * 7919 + 101)
+    tmp = scratch('iogen')
+    try:
+        progs = [gen_program(rnd, rnd.choice([1, 2, 3]), tmp)
+                 for i in range(150 if tier == 'quick' else 2000)]
+    finally:
+        shutil.rmtree(tmp, ignore_errors=True)
+    progs += tstep_windows()
+    for t in TEMPLATES:
+        progs.append({'templates': [t, t], 'steps': [
+            {'act': 'copy', 'src': 1, 'others': [], 'args': {}},
+            {'act': 'copy', 'src': 3, 'others': [], 'args': {'nodata': True}}
+        ]})
+    args = [(970000 + i, p) for i, p in enumerate(progs)]
+    res = run_cases(execute, args, timeout=120, per_child=1)
+    for a, t in zip(args, res):
+        if '_crash' in t or '_hang' in t:
+            raise Machinery('IOAPI program failed: %r\n%r' % (a[1], t))
+    out.cov['evaluations'] += sum(len(t['steps']) for t in res)
+    out.cov['ioapi_wellformed_programs'] = len(res)
+    verdicts = validate_traces('Ioapi_Trace', res, out, shard=250,
+                               env={'PNC_E_C10': '0', 'PNC_E_C11': '0',
+                                    'PNC_E_C02': '0', 'PNC_E_ISO': '0'},
+                               label='C01io', timeout=1500)
+    settle(out, res, verdicts, None)
